@@ -164,6 +164,15 @@ def compare_records(part, clause, site, cond, det, ra, rb, mp, s, skip=(), zoff=
     """rb (transformed) vs ra (original): lengths x s, cosines equal, on corresponding surfaces (k >= 1)."""
     worst = 0.0
     where = None
+    # size of the whole (scaled) system: a coordinate that is ~0 on one surface (an image folded back to z = 0 by two mirrors)
+    # still carries the rounding error of the vertices it was computed from - 1e-16 of the system size. Only matters for the
+    # unit change by 1e8 (for ordinary lenses 1e-4 x size stays below the floor of 1)
+    size = 0.0
+    for key in ('x', 'y', 'z'):
+        arr = np.asarray(ra[key][1:], float) * s
+        if np.any(np.isfinite(arr)):
+            size = max(size, float(np.max(np.abs(arr[np.isfinite(arr)]))))
+    floor = max(1.0, 1e-4 * size)
     for ka, kb in mp.items():
         if ka == 0 or ka in skip:
             continue
@@ -191,7 +200,7 @@ def compare_records(part, clause, site, cond, det, ra, rb, mp, s, skip=(), zoff=
                                expected='same rays valid')
                 return False
             if np.any(fa):
-                sc = max(1.0, float(np.max(np.abs(a[fa])))) if fac != 1.0 or key in 'xyz' else 1.0
+                sc = max(floor, float(np.max(np.abs(a[fa])))) if fac != 1.0 or key in 'xyz' else 1.0
                 e = float(np.max(np.abs(a[fa] - b[fa]))) / sc
                 if e > worst:
                     worst, where = e, (ka, key, float(a[fa][0]), float(b[fa][0]))
